@@ -457,7 +457,9 @@ def body(args, cfg, pid, tier, seed, driver, work, cmds, t0):
         by_sig.setdefault(f["signature"], []).append(f)
     violations, known_lines = [], []
     n = 0
-    has_oracle = any(f["kind"] == "oracle" for f in findings)
+    # a divergence is folded into an oracle finding only if that finding is itself reported (not a known finding)
+    known_sigs = {k["signature"] for k in known if k["property"] == pid}
+    has_oracle = any(f["kind"] == "oracle" and f["signature"] not in known_sigs for f in findings)
     for sig, fl in by_sig.items():
         rep = min(fl, key=lambda f: len(f["case"]["ops"]))
         if rep["kind"] == "diff" and has_oracle:
